@@ -6,7 +6,7 @@
        block listed in the frontier row of a has a phi for x                     (H1). *)
 From Coq Require Import ZArith NArith List Bool Lia Arith.
 Require Import Model.Base Model.Ir Model.SsaCheck Model.SsaErase Model.Ssa Model.SsaPre.
-Require Import Proofs.IrInd Proofs.IrFacts Proofs.SsaNoPanic Proofs.SsaFuel.
+Require Import Proofs.IrInd Proofs.IrFacts Proofs.SsaNoPanic Proofs.SsaFuel Proofs.SsaConstruction.
 Import ListNotations.
 
 Lemma dedup_v_in_conv : forall l v, In v l -> In v (dedup_v l).
@@ -246,3 +246,45 @@ Proof.
   - split; [exact HP|]. intros a. apply HC. intros [].
 Qed.
 End WorkList.
+
+(* ---- a block that lies in no frontier row receives no phi ---- *)
+Lemma process_frontier_untouched vars i : forall fr bs work,
+  ~ In i (map N.to_nat fr) -> nth_error (fst (process_frontier vars fr bs work)) i = nth_error bs i.
+Proof.
+  induction fr as [|f tl IH]; intros bs work Hi; simpl; [reflexivity|].
+  assert (Hne : N.to_nat f <> i) by (intros E; apply Hi; left; exact E).
+  assert (Htl : ~ In i (map N.to_nat tl)) by (intros E; apply Hi; right; exact E).
+  destruct (nth_error bs (N.to_nat f)) as [b|]; [|apply IH; exact Htl].
+  destruct (add_phis vars b 0) as [b' pushes]. rewrite IH by exact Htl. apply update_nth_other. exact Hne.
+Qed.
+
+Lemma process_frontier_work_lt vars : forall fr bs work,
+  Forall (fun a => a < length bs) work -> Forall (fun a => a < length bs) (snd (process_frontier vars fr bs work)).
+Proof.
+  induction fr as [|f tl IH]; intros bs work Hw; simpl; [exact Hw|].
+  destruct (nth_error bs (N.to_nat f)) as [b|] eqn:E; [|apply IH; exact Hw].
+  destruct (add_phis vars b 0) as [b' pushes].
+  set (bs1 := update_nth bs (N.to_nat f) (fun _ => b')).
+  assert (L : length bs1 = length bs) by apply update_nth_length.
+  rewrite <- L. apply IH. rewrite L. apply Forall_app. split; [|exact Hw].
+  apply Forall_forall. intros x Hx. apply repeat_spec in Hx. subst x. apply nth_error_Some. congruence.
+Qed.
+
+Lemma insert_phis_untouched frontier i : forall fuel bs work bs',
+  insert_phis fuel frontier bs work = SOk bs' -> Forall (fun a => a < length bs) work ->
+  (forall a, a < length bs -> ~ In i (map N.to_nat (nth a frontier []))) ->
+  nth_error bs' i = nth_error bs i.
+Proof.
+  induction fuel as [|fuel IH]; intros bs work bs' H Hw Hf.
+  - destruct work; simpl in H; [|discriminate]. inversion H; subst. reflexivity.
+  - destruct work as [|cur rest]; simpl in H; [inversion H; subst; reflexivity|].
+    inversion Hw as [|? ? Hc Hr]; subst.
+    destruct (nth_error bs cur) as [b|]; [|discriminate].
+    destruct (vars_written b) as [|v vs] eqn:Ev; [eapply IH; eassumption|].
+    destruct (process_frontier (v :: vs) (nth cur frontier []) bs rest) as [bs1 work1] eqn:Ep.
+    pose proof (process_frontier_untouched (v :: vs) i (nth cur frontier []) bs rest (Hf cur Hc)) as U.
+    pose proof (process_frontier_work_lt (v :: vs) (nth cur frontier []) bs rest Hr) as W.
+    pose proof (process_frontier_length (v :: vs) (nth cur frontier []) bs rest) as L.
+    rewrite Ep in U, W, L. cbn [fst snd] in U, W, L.
+    rewrite <- U. eapply IH; [exact H|rewrite L; exact W|]. intros a Ha. apply Hf. rewrite <- L. exact Ha.
+Qed.
